@@ -39,6 +39,7 @@ def run(ctx: fw.Ctx) -> int:
     ctx.matchers = {'F13': match_f13, 'F14': match_f14, 'F15': match_f15, 'F6': match_f6}
     ctx.proofs(extra=['Props/C02History.v'])
     trace_tie(ctx)
+    retrigger_layer(ctx)
     cr.run_histories(ctx, ctx.scale(400, 8000), MONITORS, gen=gen)
     return ctx.finish(RULE, level_note=['closed loop: real kopf.operator() against harness/kv/fakeapi.py (Kubernetes rules assumed there)'])
 
@@ -74,6 +75,38 @@ def trace_tie(ctx: fw.Ctx) -> None:
     ctx.differential('T_cycle_world', cw_tie.HEADER, cases, shard=40)
 
 
+RETRIGGER_SIGS = {'touch-decision', 'no-sleep', 'slept-after-patch', 'applied-flag'}
+
+
+def retrigger_layer(ctx: fw.Ctx) -> None:
+    """Function level: the sleep-and-touch re-triggering of application.apply (theorems C03_unfinished_cycle_retriggers,
+    C03_quiet_only_when_done over Model/PatchObj.v).  Under virtual time no instant passes inside a worker cycle, so the
+    closed loop never reaches `delays == [0]` with an empty patch (a handler that becomes due between the selection and the
+    delay calculation); the enumeration of apply's inputs does.  Only the monitors that concern re-triggering count here;
+    the rest of apply belongs to C08."""
+    from kv.props import c08_model
+    ok, logtxt = fw.build_models(['Model/PatchObj.v', 'Model/Causes.v'])
+    if not ok:
+        ctx.correspondence_break('D:apply_retrigger model build', logtxt[-1500:])
+        return
+    env = c08_model.Env()
+    try:
+        c08_model.apply_layer(ctx, env, set(), tie='apply_retrigger', sigs=RETRIGGER_SIGS)
+    finally:
+        env.close()
+
+
 def replay(ctx: fw.Ctx, body: dict) -> bool:
     ctx.matchers = {'F13': match_f13, 'F14': match_f14, 'F15': match_f15, 'F6': match_f6}
+    if 'scenario' not in (body.get('case') or {}) and (body.get('case') or {}).get('fn') == 'apply':
+        from kv.props import c08_model
+        fctx = c08_model.SigFilter(ctx, RETRIGGER_SIGS)
+        env = c08_model.Env()
+        try:
+            c08_model.monitor_apply(fctx, c08_model.run_apply(env, {k: v for k, v in body['case'].items() if k not in ('requests', 'outcome', 'sleeps', 'request')}))
+        finally:
+            env.close()
+        for f in ctx.failures:
+            print('  still failing:', f['sig'], '-', f['what'])
+        return bool(ctx.failures)
     return cr.replay_scenario(ctx, body, MONITORS)
